@@ -132,21 +132,28 @@ structure InnerRes where
   /-- identity of the element the bookmark follows, if it was moved (step 4.13.8) -/
   bookmark : Option Nat
 
+/-- the element entry of the list with identity `id` (the entry remembers "the token for which the
+element was created": name and attributes) -/
+def Tree.findAfe (s : Tree) (id : Nat) : Option El :=
+  s.afe.findSome? (fun | .el x => if x.id == id then some x else none | .marker => none)
+
 /-- inner loop, over the nodes between furthest block and formatting element, nearest the furthest
 block first; `k` = inner loop counter after the increment of step 4.13.1; `lastIsFb` = "last node is
 the furthest block" -/
 def aaaInner (s : Tree) : Nat → Bool → List El → InnerRes
   | _, _, [] => ⟨s, [], none⟩
   | k, lastIsFb, node :: rest =>
-    if k > 3 || !s.inAfe node.id then
+    match (if k > 3 then none else s.findAfe node.id) with
+    | none =>
       -- 4.13.4 / 4.13.5: remove node from the list (if there) and from the stack
       aaaInner (s.removeFromAfe node.id) (k + 1) lastIsFb rest
-    else
-      -- 4.13.6: replace node by a new element, in the list and in the stack
-      let ne : El := ⟨s.nextId, .html, node.name, node.attrs⟩
+    | some x =>
+      -- 4.13.6: create an element for the token for which node was created; replace node by it, in
+      -- the list and in the stack
+      let ne : El := ⟨s.nextId, .html, x.name, x.attrs⟩
       let s1 : Tree :=
         { s with nextId := s.nextId + 1,
-                 afe := s.afe.map (fun x => if AfeEntry.hasId node.id x then .el ne else x) }
+                 afe := s.afe.map (fun y => if AfeEntry.hasId node.id y then .el ne else y) }
       let r := aaaInner s1 (k + 1) false rest
       ⟨r.st, ne :: r.between, if lastIsFb then some ne.id else r.bookmark⟩
 
